@@ -2,6 +2,7 @@ package world
 
 import (
 	"fmt"
+	"strings"
 
 	"verif/tape"
 )
@@ -14,6 +15,51 @@ import (
 func Edit(w *World, t *tape.Tape, prof Profile) string {
 	g := &gen{t: t, w: w, p: prof, reg: map[string]string{}, used: map[string]string{}}
 	g.rebuild()
+	if t.Chance(1, 10) {
+		// the user takes a generated function over by hand: a declaration of that name and signature appears
+		// in one of the user's files (from then on the call is an ordinary call, nothing is generated for it)
+		var cands []*Call
+		for _, c := range w.Calls {
+			if c.Test || c.Curried != nil || c.Pair != nil || c.Pkg != "" {
+				continue
+			}
+			taken := false
+			for _, u := range w.UserFuncs {
+				if u.Name == w.FuncName(c) {
+					taken = true
+				}
+			}
+			flat := true
+			for _, a := range c.Args {
+				if a.Nested != nil || a.Lit != "" {
+					flat = false
+				}
+			}
+			switch c.Plugin {
+			case "equal", "compare", "hash":
+				if flat && !taken {
+					cands = append(cands, c)
+				}
+			}
+		}
+		if len(cands) > 0 {
+			c := cands[t.Intn(len(cands))]
+			name := w.FuncName(c)
+			var ps []string
+			for i, a := range c.Args {
+				ps = append(ps, fmt.Sprintf("h%d %s", i, a.Ty.Str("")))
+			}
+			res, body := "bool", "return false"
+			switch c.Plugin {
+			case "compare":
+				res, body = "int", "return 0"
+			case "hash":
+				res, body = "uint64", "return 7"
+			}
+			w.UserFuncs = append(w.UserFuncs, UserFunc{Name: name, File: c.File, Text: fmt.Sprintf("// %s is written by hand now.\nfunc %s(%s) %s { %s }\n", name, name, strings.Join(ps, ", "), res, body)})
+			return "handwrite-call " + name
+		}
+	}
 	if w.HasExt && t.Chance(1, 12) {
 		// an edit outside p: a type of a package that p reaches only through a field of an imported type
 		w.OextAlt = !w.OextAlt
@@ -193,6 +239,12 @@ func Edit(w *World, t *tape.Tape, prof Profile) string {
 					n.Args[0].Ty = Map(nk, n.Args[0].Ty.Elem)
 					n.ResTy = Slice(nk)
 					c.Args[i].Ty = Slice(nk)
+					renamed := ""
+					if t.Bool() {
+						// ... under a new name: the old file defines the outer function, not this inner one
+						n.Suffix = fmt.Sprintf("R%d", g.id())
+						renamed = " (inner call renamed)"
+					}
 					// other arguments of the outer call that carried the key type follow
 					for j := range c.Args {
 						if j != i && c.Args[j].Nested == nil && c.Args[j].Param == "k" {
@@ -202,7 +254,7 @@ func Edit(w *World, t *tape.Tape, prof Profile) string {
 							c.Args[j].Ty.Params[0] = nk
 						}
 					}
-					return fmt.Sprintf("retype-nested-flow %s(%s(...)) %s -> %s", w.FuncName(c), w.FuncName(n), old, n.Args[0].Ty.Str(""))
+					return fmt.Sprintf("retype-nested-flow %s(%s(...)) %s -> %s%s", w.FuncName(c), w.FuncName(n), old, n.Args[0].Ty.Str(""), renamed)
 				}
 			}
 		case 6: // delete every derive call
